@@ -613,6 +613,7 @@ func (h *harness) doIter(jc jcase) {
 
 	var rep, dlist []string
 	var err error
+	edgeMap := map[string][]byte{}
 	done := hx.WithTimeout(120*time.Second, func() {
 		j, _, e := joiner.New(ctx, st, storage.ModeGetRequest, boson.NewAddress(rootAddr))
 		if e != nil {
@@ -627,12 +628,23 @@ func (h *harness) doIter(jc jcase) {
 		for _, b := range j.GetDataChunks() {
 			dlist = append(dlist, string(b))
 		}
+		// second run: the edge-chunk collection GetPyramid uses
+		j2, _, e := joiner.New(ctx, st, storage.ModeGetLookup, boson.NewAddress(rootAddr))
+		if e != nil {
+			err = e
+			return
+		}
+		j2.SetSaveEdgeChunks(edgeMap)
+		if e := j2.IterateChunkAddresses(func(boson.Address) error { return nil }); e != nil && err == nil {
+			err = e
+		}
 	})
 	if !done {
 		h.violate("iter:timeout", "IterateChunkAddresses did not finish", jc, nil, nil)
 		return
 	}
-	run.OracleChecked(2)
+	ekeys, _ := pyramidKeys(edgeMap)
+	run.OracleChecked(3)
 	if dropped == nil {
 		if err != nil {
 			h.violate("iter:error", err.Error(), jc, nil, "no error")
@@ -642,6 +654,23 @@ func (h *harness) doIter(jc jcase) {
 			}
 			if strings.Join(dlist, "|") != strings.Join(leaves, "|") {
 				h.violate("iter:data-chunks!=leaves", "data chunk list differs from the leaves in file order", jc, len(dlist), len(leaves))
+			}
+			// edge chunks: exactly the fabricated level-1 nodes, each with its stored bytes
+			ls := setOf(leaves)
+			wantEdges := map[string]bool{}
+			for _, w := range written[1:] {
+				if !ls[w] {
+					wantEdges[w] = true
+				}
+			}
+			okE := len(ekeys) == len(wantEdges)
+			for _, k := range ekeys {
+				if !wantEdges[k] || !bytes.Equal(edgeMap[hex.EncodeToString([]byte(k))], st.m[k]) {
+					okE = false
+				}
+			}
+			if !okE {
+				h.violate("iter:edge-chunks!=intermediate-chunks", "SetSaveEdgeChunks collected something else than the intermediate chunks below the root", jc, len(ekeys), len(wantEdges))
 			}
 		}
 	} else if err == nil || !errors.Is(err, storage.ErrNotFound) {
@@ -653,7 +682,8 @@ func (h *harness) doIter(jc jcase) {
 	root := x.ref(rootAddr)
 	to := classify(err, h.idsOf(x, rep))
 	do := classify(err, h.idsOf(x, dlist))
-	coq := fmt.Sprintf("CIter false %d %d\n    %s\n    %s %s", root[0], root[1], coqEnts(views), to.coq(), do.coq())
+	eo := classify(err, sortedU(h.idsOf(x, ekeys), true))
+	coq := fmt.Sprintf("CIter false %d %d\n    %s\n    %s %s %s", root[0], root[1], coqEnts(views), to.coq(), do.coq(), eo.coq())
 	run.AddCase("("+coq+")", jc, fmt.Sprintf("iter|%d|%d|%v|%v|%d", jc.Full, jc.Last, jc.Dup, jc.Drop, jc.Sub), true)
 	run.Hist(fmt.Sprintf("iter.full=%d.last=%s.dup=%v.drop=%v", jc.Full, lastClass(jc.Last), jc.Dup, jc.Drop))
 }
